@@ -155,6 +155,91 @@ func renameIdent(x cexpr, from, to string) cexpr {
 	return x
 }
 
+// applyRefines: a method contract with `refines Iface.Method` must also establish the
+// interface method's postconditions (self := the receiver converted to the interface).
+func (cs *contractSet) applyRefines() error {
+	for _, k := range cs.order {
+		fc := cs.funcs[k]
+		if fc.refines == "" {
+			continue
+		}
+		parts := strings.Split(fc.refines, ".")
+		if len(parts) != 2 {
+			return fmt.Errorf("%s: refines wants Iface.Method", fc.where)
+		}
+		ic := cs.funcs[fc.pkgPath+"::("+parts[0]+")."+parts[1]]
+		if ic == nil || !ic.isIface {
+			return fmt.Errorf("%s: no interface contract %s", fc.where, fc.refines)
+		}
+		if len(ic.params) != len(fc.params) || len(ic.results) != len(fc.results) {
+			return fmt.Errorf("%s: refines %s: signature mismatch", fc.where, fc.refines)
+		}
+		for _, c := range ic.ensures {
+			e := c.e
+			// rename in two steps to avoid capture
+			for i, p := range ic.params {
+				e = renameIdent(e, p.name, fmt.Sprintf("ref$p%d", i))
+			}
+			for i, p := range ic.results {
+				e = renameIdent(e, p.name, fmt.Sprintf("ref$r%d", i))
+			}
+			for i, p := range fc.params {
+				e = renameIdent(e, fmt.Sprintf("ref$p%d", i), p.name)
+			}
+			for i, p := range fc.results {
+				e = renameIdent(e, fmt.Sprintf("ref$r%d", i), p.name)
+			}
+			e = substIdent(e, "self", &cCall{fun: &cIdent{parts[0]}, args: []cexpr{&cIdent{fc.recvName}}})
+			fc.ensures = append(fc.ensures, clause{src: c.src + " [refines " + fc.refines + "]", e: e, label: fmt.Sprintf("post:ref%d", len(fc.ensures)+1), where: c.where})
+		}
+	}
+	return nil
+}
+
+// substIdent replaces identifier `from` by an expression.
+func substIdent(x cexpr, from string, to cexpr) cexpr {
+	switch x := x.(type) {
+	case *cIdent:
+		if x.name == from {
+			return to
+		}
+		return x
+	case *cUnary:
+		return &cUnary{x.op, substIdent(x.x, from, to)}
+	case *cBinary:
+		return &cBinary{x.op, substIdent(x.x, from, to), substIdent(x.y, from, to)}
+	case *cCall:
+		var as []cexpr
+		for _, a := range x.args {
+			as = append(as, substIdent(a, from, to))
+		}
+		return &cCall{x.fun, as}
+	case *cSel:
+		return &cSel{substIdent(x.x, from, to), x.name}
+	case *cIndex:
+		return &cIndex{substIdent(x.x, from, to), substIdent(x.idx, from, to)}
+	case *cSlice:
+		var lo, hi cexpr
+		if x.lo != nil {
+			lo = substIdent(x.lo, from, to)
+		}
+		if x.hi != nil {
+			hi = substIdent(x.hi, from, to)
+		}
+		return &cSlice{substIdent(x.x, from, to), lo, hi}
+	case *cQuant:
+		for _, v := range x.vars {
+			if v.name == from {
+				return x
+			}
+		}
+		return &cQuant{x.forall, x.vars, substIdent(x.body, from, to)}
+	case *cCond:
+		return &cCond{substIdent(x.c, from, to), substIdent(x.a, from, to), substIdent(x.b, from, to)}
+	}
+	return x
+}
+
 // applyInvariants expands type invariants into the method contracts.
 func (cs *contractSet) applyInvariants() {
 	for _, inv := range cs.invariants {
@@ -178,7 +263,7 @@ func newContractSet() *contractSet {
 var clauseKeywords = map[string]bool{
 	"prop": true, "requires": true, "ensures": true, "modifies": true, "loop": true, "trusted": true,
 	"pure": true, "panics-if": true, "nopanic": true, "maypanic": true, "mode": true, "decreases": true, "refines": true,
-	"noframe": true, "using": true, "noinv": true,
+	"noframe": true, "using": true, "noinv": true, "rec": true,
 }
 
 var reLoop = regexp.MustCompile(`^(\d+)\s*:\s*(invariant|decreases)\s+(.*)$`)
@@ -287,7 +372,7 @@ func (cs *contractSet) loadContractFile(path, pkgPath string) error {
 			sf.pkgPath = pkgPath
 			sf.where = where
 			for _, c := range b.clauses {
-				if strings.HasPrefix(c, "decreases") {
+				if strings.HasPrefix(c, "decreases") || c == "rec" {
 					sf.rec = true
 				}
 			}
